@@ -172,11 +172,25 @@ def summarize_tool(
     start_model = start_model_entry.model
     models = [model_entry.model for model_entry in model_entries]
 
+    parent_dict = None
+    if rank_type == 'lrt':
+        # Test each candidate against its own parent (the one listed in `parent_model`)
+        names = {start_model.name} | {model.name for model in models}
+        parent_dict = {
+            me.model.name: (
+                me.parent.name
+                if me.parent is not None and me.parent.name in names
+                else start_model.name
+            )
+            for me in model_entries
+        }
+
     df_rank = rank_models(
         start_model,
         start_model_res,
         models,
         models_res,
+        parent_dict=parent_dict,
         strictness=strictness,
         rank_type=rank_type,
         cutoff=cutoff,
